@@ -56,12 +56,17 @@ def gen_read(rng, seq, maxlen=30):
     r = rng.random()
     n = rng.randint(0, 4) if r < 0.1 else rng.randint(0, maxlen) if r < 0.9 else rng.randint(maxlen, 150)
     amode = rng.random()
-    alpha = "ACGT" if amode < 0.7 else "ACGTNacgtn" if amode < 0.9 else "ACGTNacgtnRYXM"
+    alpha = "ACGT" if amode < 0.7 else "ACGTNacgtn" if amode < 0.88 else "ACGTNacgtnRYXM" if amode < 0.95 else "ACGTN.-*0acg"
     rd = rand_seq(rng, n, alpha)
     if rng.random() < 0.75:
         cp = mutate(rng, concretize(rng, seq), rng.choice([0, 0, 0, 1, 1, 2, 3, 4]))
         if rng.random() < 0.1:
             cp = cp.lower()
+        if "N" in seq and rng.random() < 0.15:
+            # characters that are not letters (gap and padding symbols occur in sequence files) at the wildcard positions of the adapter
+            ref = concretize(rng, seq)
+            if len(ref) == len(seq):
+                cp = "".join(rng.choice(".-*0") if a == "N" and rng.random() < 0.7 else b for a, b in zip(seq, ref))
         if cp:
             p = rng.randint(-len(cp) + 1, max(0, n))
             rd = (cp[-p:] + rd) if p < 0 else rd[:p] + cp + rd[p:]
@@ -76,7 +81,8 @@ def gen_adapter_cfg(rng, types=TYPES, maxlen=14):
     rate = rng.choice(RATES)
     if rng.random() < 0.1:
         rate = float(rng.choice([1, 2, 3]))   # absolute number of errors
-    return dict(ty=ty, seq=seq, max_errors=rate, min_overlap=rng.randint(1, 6), read_wildcards=rng.random() < 0.25,
+    mo = rng.randint(1, 6) if rng.random() < 0.85 else len(seq) + rng.randint(0, 7)     # also beyond the adapter length (clamped by cutadapt)
+    return dict(ty=ty, seq=seq, max_errors=rate, min_overlap=mo, read_wildcards=rng.random() < 0.25,
                 adapter_wildcards=rng.random() < 0.8, indels=rng.random() < 0.6, force_anywhere=False)
 
 
